@@ -11,7 +11,7 @@ ID = "C12"
 THEOREM = ("Ufo2ft.C12.C12_dispatch / C12_table18 / C12_unsupported_iff / C12_reject_version / C12_reject_backend / "
            "C12_width / C12_width_independent / C12_render_toCmds / C12_specTopo_id / C12_specTopo_visited / "
            "C12_specTopo_endPoint / C12_pipeline_draw_partial / C12_render_partial / C12_same / C12_names_content / "
-           "C12_names_same / C12_names_distinct / C12_names / C12_same_named")
+           "C12_names_same / C12_names_distinct / C12_names / C12_cff1_writable / C12_same_named")
 PROOF_FILES = ["C12", "C12Names"]
 N = {"quick": 110, "thorough": 1800}
 NAMES_SHARE = 0.4    # extra fonts built with production names, as a share of N
@@ -45,7 +45,9 @@ RULE = ("(1) dispatch, exhaustive in both tiers: PostProcessor.process on a real
         "combination against the prediction made from the twin (drawing, advance, layout per glyph INDEX), the reference build's "
         "per-index outline+advance digests against the twin's, the names stored by every build (CFF 1 charset / 'post' format 2 / "
         "none for CFF2 with format 3) against the model, pairwise distinctness, and equality of the stored names across all "
-        "combinations.  '.notdef' is never a key of the generated maps (see LEVEL_NOTE). "
+        "combinations.  A quarter of the maps have an entry FOR '.notdef' (values nd/notdef/.notdef/''/null/another glyph's "
+        "name) and 15 % an entry that asks for the name '.notdef' (plus the 'taken' pattern); the former finding's input "
+        "({'.notdef': 'nd', 'A': 'B', 'B': 'A'}) is a fixed case and a corpus line. "
         "non-trivial = at least 3 outlined glyphs and all but at most 2 combinations successful (fonts); input table present "
         "(dispatch); drawing changed (spec); the observed rename map is not idempotent or renames at least 2 glyphs (names).")
 ASSUMED = [
@@ -58,8 +60,8 @@ ASSUMED = [
     "glyph identity: fontTools writes a 'CFF ' table by walking topDict.charset and looking each name up in CharStrings "
     "(modelled as `savedIndex`, tied by correspondence on every font of stream 4), addresses CFF2 charstrings by glyph index, "
     "and leaves hmtx/cmap/GSUB/GPOS/GDEF of a reloaded font untouched (measured per font: advances and layout digests per "
-    "index); the glyph set handed to the post-processor covers the whole glyph order (hypothesis `covers` of "
-    "C12_names_content, evaluated by the driver on every input: met on all); the naming code itself is the Lean model of "
+    "index); glyph orders have distinct names and start with '.notdef' (hypotheses of C12_names_content / C12_cff1_writable, "
+    "evaluated by the driver on every input: met on all); the naming code itself is the Lean model of "
     "property C11 (Model/C11.lean: decide', buildProductionNames, renameGlyphs), reused unchanged, with C11_distinct and "
     "C11_perm_charStrings as lemmas",
 ]
@@ -170,12 +172,20 @@ def _ps_map(rng, real):
         else:
             continue
         pats.append(pat)
+    # '.notdef' is a glyph like any other for the map (it is in the post-processor's glyph set even when ufo2ft
+    # synthesises it): an entry FOR it, and entries that ask for its name
+    if rng.random() < 0.25:
+        ps[".notdef"] = rng.choice(["nd", "notdef", ".notdef", "", "null"] + real[:2])
+        pats.append("notdef-key")
+    if real and rng.random() < 0.15:
+        ps[rng.choice(real)] = ".notdef"
+        pats.append("notdef-value")
     return ps, pats
 
 
 def _names_cfg(rng, fd, auto):
     """how glyph names are to be finalised: the useProductionNames argument, the three lib switches and the
-    public.postscriptNames map ('.notdef' is never a key: see LEVEL_NOTE)"""
+    public.postscriptNames map (with entries for '.notdef' and entries asking for the name '.notdef')"""
     real = [g["name"] for g in fd["glyphs"] if g["name"] != ".notdef"]
     lib = fd.setdefault("lib", {})
     pats = []
@@ -300,20 +310,7 @@ QUIRKS = [
 
 
 
-def _listed(kind):
-    """is this shape listed as a known finding?  (the fixed case that exhibits it is generated only then, so that the
-    check stays green until the finding has been reviewed and listed)"""
-    import json
-    import os
-    try:
-        with open(os.path.join(os.path.dirname(os.path.dirname(os.path.dirname(os.path.abspath(__file__)))), "known_findings.json")) as f:
-            kf = json.load(f)
-    except (OSError, ValueError):
-        return False
-    kf = kf.get("findings", kf) if isinstance(kf, dict) else kf
-    return any(isinstance(e, dict) and e.get("property") == ID and e.get("shape") == {"kind": kind} for e in kf)
-
-
+# the former finding C12-cff1-notdef-renamed (fixed in /repo: '.notdef' is exempt from renaming), kept as a fixed case
 NOTDEF_QUIRK = {"kind": "font", "lib": "ufoLib2", "degen": [], "quirk": "notdef-renamed", "tol": None,
                 "names": {"arg": None, "pats": ["notdef"]},
                 "fd": {"info": {}, "lib": {KEY_PS: {".notdef": "nd", "A": "B", "B": "A"}},
@@ -331,8 +328,7 @@ SPEC_SMALL = [["m", 1, 1], ["l", 0, 0], ["l", 3, 0], ["l", -3, 0], ["l", 0, 2], 
 def gen(rng, n, mode):
     for q in QUIRKS:
         yield q
-    if _listed("cff1-notdef-renamed"):
-        yield NOTDEF_QUIRK
+    yield NOTDEF_QUIRK
     tuples = [[iv, o, v, s] for iv in IVS for o in OPTS for v in VERS for s in SUBS]
     for i in range(0, len(tuples), 100):
         yield {"kind": "dispatch", "items": tuples[i:i + 100]}
@@ -826,30 +822,69 @@ def agree(req, rep):
     return True
 
 
+def _notdef_renamed(req, m):
+    """names the shape that WAS a defect of ufo2ft (C12-cff1-notdef-renamed, listed as kind=fixed, which suppresses
+    nothing: a recurrence is a VIOLATION): public.postscriptNames has an entry for '.notdef', and the ONLY thing wrong
+    is that exactly the combinations whose output is a 'CFF ' table returned a font that fontTools refuses to save
+    (AssertionError: charset[0] == '.notdef'), every other combination being as the model predicts"""
+    nin = req["in"].get("names")
+    if not nin or not any(k == ".notdef" for k, _ in (nin["ps"] or [])):
+        return False
+    obs = req["obs"]["results"]
+    if len(obs) != len(m["results"]) or not any(o["err"] == "save:AssertionError" for o in obs):
+        return False
+    for o, p in zip(obs, m["results"]):
+        if p["err"] is None and p["tag"] == 1:
+            if o["err"] != "save:AssertionError":
+                return False
+        elif o["err"] != p["err"] or (o["err"] is None and o["tag"] != p["tag"]):
+            return False
+    return True
+
+
 def classify_failure(res):
     """The one known shape: the property fails on a font ONLY because optimizeCFF >= 1 runs fontTools'
     specializeCommands with preserveTopology=False, i.e. every observed font (error kinds, table tags, hmtx,
     layout, and every glyph's drawing) is exactly what the Lean model predicts, where the model's drawing for
     specialised combinations is `specTopo` (passes 1-3 of the specialiser) applied to the optimizeCFF=0 drawing."""
     req = res["req"]
-    if req["op"] != "font" or res["holds"] or not res["agree"]:
+    if req["op"] != "font" or res["holds"]:
         return None
     m = res["model"]
     if m is None:
+        return None
+    if _notdef_renamed(req, m):
+        return {"kind": "cff1-notdef-renamed"}
+    if not res["agree"]:
         return None
     merrs = {r["err"] for r in m["results"] if r["err"] not in (None, "NotImplementedError")}
     if merrs == {"save:AttributeError"}:
         return {"kind": "cffsubr-cff1-charset-omitted"}
     if merrs == {"Other:Error"}:
         return {"kind": "cffsubr-cff2-no-outlines"}
-    if merrs == {"save:AssertionError"} and req["in"].get("names"):
-        return {"kind": "cff1-notdef-renamed"}
     if merrs or len(m["draws"]) < 2:
         return None
     return {"kind": "specializer-topology"}
 
 
+def _tx_quirk_shape(c):
+    """the two input shapes on which the external tx binary fails (known findings with fixed cases of their own)"""
+    gl = c["fd"]["glyphs"]
+    return ([g["name"] for g in gl if g["name"] != ".notdef"] in ([], ["space"])
+            or not any(g["contours"] or g["components"] for g in gl))
+
+
 def shrink(case):
+    """smaller cases; a font case that is not itself one of the tx quirk shapes is never shrunk INTO one (a failure
+    found there would be a different one)"""
+    keep_out = case["kind"] == "font" and not _tx_quirk_shape(case)
+    for c in _shrink(case):
+        if keep_out and _tx_quirk_shape(c):
+            continue
+        yield c
+
+
+def _shrink(case):
     if case["kind"] == "spec":
         for it in case["items"]:
             yield {"kind": "spec", "items": [it]}
@@ -924,7 +959,8 @@ LEVEL_TEXT = ("Proved for all inputs (Lean): the dispatcher of PostProcessor.pro
               "switches and both CFF versions, rename_glyphs followed by fontTools' charset->CharStrings walk leaves the charstring "
               "of source glyph k at glyph index k (C12_names_content), the stored names are pairwise distinct (C12_names_distinct) "
               "and the CFF 1 and CFF 2 builds store the same names (C12_names_same); C12_same extends to sources built with "
-              "production names (C12_same_named). Tied to the code by an exhaustive run of the dispatcher and by "
+              "production names, for every glyph order that starts with '.notdef', with no side condition on the map "
+              "(C12_cff1_writable, C12_same_named). Tied to the code by an exhaustive run of the dispatcher and by "
               "compiling random fonts under all 18 (+4) combinations with the real cffsubr/compreffor/CFF2 converter, with and "
               "without production names.")
 LEVEL_NOTE = ("The external encoders (specialiser passes 4-7, cffsubr, compreffor, CFF->CFF2) are hypotheses of the rendering theorem, "
@@ -934,8 +970,10 @@ LEVEL_NOTE = ("The external encoders (specialiser passes 4-7, cffsubr, compreffo
               "exactly that shape through the Lean model of those passes. Glyph identity: how fontTools serialises a 'CFF ' table "
               "(charset walk) is modelled from its source and tied only by correspondence; the per-index digests compare the "
               "reference combination with its un-renamed twin exactly, the other combinations go through the font comparison "
-              "(prediction from the twin). Finding kept out of the random stream: a public.postscriptNames entry for '.notdef' is "
-              "applied like any other, and fontTools refuses to write a 'CFF ' charset that does not start with '.notdef' "
-              "(AssertionError at save) while the CFF 2 builds succeed; the model has it (cff1Writable / modelFontNamed), "
-              "classify_failure recognises exactly it (shape cff1-notdef-renamed), and the fixed case NOTDEF_QUIRK is generated "
-              "once that shape is listed in known_findings.json.")
+              "(prediction from the twin). Repaired finding (C12-cff1-notdef-renamed, kind fixed): a public.postscriptNames entry for '.notdef' "
+              "used to be applied like any other, and fontTools refuses to write a 'CFF ' charset that does not start with "
+              "'.notdef' (AssertionError at save) while the CFF 2 builds succeeded; _build_production_names now exempts '.notdef' "
+              "and reserves its name (model: C11.renames / seenInit; C11_notdef_kept, C12_cff1_writable: the charset of every CFF 1 "
+              "font still starts with '.notdef'; the old function survives only in labelled counterexamples). fontTools' "
+              "requirement stays in the model (cff1Writable, measured). classify_failure still names exactly that shape - from "
+              "the observations, the model no longer predicting it - so that a recurrence is reported as a VIOLATION.")
